@@ -327,6 +327,22 @@ def run(prog, rep):
 
     name_cache_rule(prog, rep, "CACHE-3")
 
+    rep.rule("TUP-2", "property_values_check judges an <n>-tuple value by its item count: under a guard that knows the dtype ends in '-tuple' the "
+                      "stored value's len() is compared with the n of the dtype (a round trip through the text form accepts an emptied tuple, "
+                      "splits an item that contains ';' and raises TypeError for a non-text item)")
+    pvc = vmod.functions.get("property_values_check")
+    if pvc is None:
+        raise AnalysisError("validation.property_values_check vanished")
+    n_len = 0
+    for h in private_closure(pvc):
+        hx = Expander(h, inline=prog)
+        for n in ast.walk(h.node):
+            if isinstance(n, ast.Compare) and any(isinstance(c, ast.Call) and call_name(c) == "len" for c in ast.walk(n)):
+                n_len += 1
+    rep.check(n_len >= 1, "TUP-2", "tuple values are counted", "%d len() comparisons" % n_len,
+              "property_values_check no longer compares len(<value>) with the tuple size of the dtype", pvc.where,
+              witness="prop[0].clear() on a 2-tuple Property: no 'values inconsistent with dtype' warning")
+
     # ----------------------------------------------------------------- ORD-2
     cardinality_validation_rule(prog, rep)
     from .c19 import reset1_rule
